@@ -805,7 +805,7 @@ def generate(ctx, shard=0, nshards=1):
         ctx.sample({'call': 'Angle(725.5)()', 'expected': 5.5})
         ctx.sample({'call': 'Angle(0, -5, 30.0)()', 'expected': -0.09166666666666667})
         ctx.sample({'call': '(Angle(350) + 20)()', 'expected': 10.0})
-    n = ctx.n(160000, 2400000) // nshards
+    n = ctx.n(1000000, 8000000) // nshards
     for s in gen_specs(ctx, n):
         run_spec(ctx, s)
 
